@@ -109,3 +109,67 @@ Theorem c05_rwork_suffices :
   (c_bmod2d_stride_is_lda_s && c_bmod2d_stride_is_lda_d && c_bmod2d_stride_is_lda_c && c_bmod2d_stride_is_lda_z)%bool = true.
 Proof. exact (conj rwork_ok_s (conj rwork_ok_d (conj rwork_ok_c (conj rwork_ok_z bmod2d_strides_are_lda)))). Qed.
 Print Assumptions c05_rwork_suffices.
+
+From SLU Require Import C2GalLib AllocGen AllocTie.
+
+(* the bump allocator of the factor storage AS THE SOURCE SAYS NOW: gen_Glu_alloc is re-translated from Glu_alloc of SRC/pmemory.c on
+   every run (tools/gen_trans.py, AllocGen.v; the translator also checks that nextu / nextl / nextlu are only touched under
+   lu_locks[ULOCK] / [LLOCK] / [LULOCK] and that every return happens with no lock held).  For every argument it computes the model's
+   bump of its storage type: UCOL and USUB share nextu / nzumax, LSUB has nextl / nzlmax; the old next-pointer comes back through
+   *prev_next, the new one is stored, the XPAND_HINT abort is taken exactly when bump reports exhaustion, nothing else changes;
+   LUSUP is the unchecked lusup_alloc on the slot pointer map_in_sup[fsupc]; any other mem_type does nothing *)
+Theorem c05_source_alloc_is_model : forall pnum jcol num mt prev0 m nextlu nextu nextl nzlumax nzumax nzlmax,
+  let run := gen_Glu_alloc pnum jcol num mt prev0 m nextlu nextu nextl nzlumax nzumax nzlmax in
+  (class_of mt = SC_U ->
+     run = match bump nextu nzumax num with
+           | None => Aborted
+           | Some (p, nx) => Returned (0, p, m, (nextlu, nx, nextl, nzlumax, nzumax, nzlmax))
+           end) /\
+  (class_of mt = SC_L ->
+     run = match bump nextl nzlmax num with
+           | None => Aborted
+           | Some (p, nx) => Returned (0, p, m, (nextlu, nextu, nx, nzlumax, nzumax, nzlmax))
+           end) /\
+  (class_of mt = SC_LUSUP ->
+     run = let f := lusup_leader m jcol in
+           Returned (0, fst (lusup_alloc (m f) num), zupd m f (snd (lusup_alloc (m f) num)),
+                     (nextlu, nextu, nextl, nzlumax, nzumax, nzlmax))) /\
+  (class_of mt = SC_none -> run = Returned (0, prev0, m, (nextlu, nextu, nextl, nzlumax, nzumax, nzlmax))).
+Proof. exact source_alloc_is_model. Qed.
+Print Assumptions c05_source_alloc_is_model.
+
+(* the classes are inhabited by the values of the enumeration MemType that pmemory.c sees *)
+Theorem c05_source_alloc_classes :
+  class_of gen_UCOL = SC_U /\ class_of gen_USUB = SC_U /\ class_of gen_LSUB = SC_L /\ class_of gen_LUSUP = SC_LUSUP.
+Proof. exact (conj class_UCOL (conj class_USUB (conj class_LSUB class_LUSUP))). Qed.
+Print Assumptions c05_source_alloc_classes.
+
+(* c05_bump_safe + c05_bump_disjoint for the translated function: run it over any interleaving of requests (mem_type, jcol, num);
+   when the run returns, the blocks of one locked storage type (k = SC_U: UCOL and USUB together, k = SC_L: LSUB) lie inside
+   [next, max] of that type, are consecutive, pairwise disjoint, and there is one per request of that type *)
+Theorem c05_source_alloc_blocks_safe : forall k, k = SC_U \/ k = SC_L ->
+  forall reqs pnum prev0 m c l fin,
+  0 <= next_of k c -> (forall r, In r (reqs_of k reqs) -> 0 <= r) ->
+  src_run pnum prev0 m c reqs = Returned (l, fin) ->
+  AllocProofs.blocks_ok (next_of k c) (max_of k c) (blocks_of k l) /\ AllocProofs.consecutive (next_of k c) (blocks_of k l) /\
+  ForallOrdPairs (fun a b => snd a <= fst b) (blocks_of k l) /\ length (blocks_of k l) = length (reqs_of k reqs).
+Proof. exact src_run_blocks_safe. Qed.
+Print Assumptions c05_source_alloc_blocks_safe.
+
+(* c05_bump_abort_when_full for the translated function: the abort path is taken exactly when the model reports exhaustion *)
+Theorem c05_source_alloc_abort_iff : forall pnum jcol num mt prev0 m nextlu nextu nextl nzlumax nzumax nzlmax,
+  gen_Glu_alloc pnum jcol num mt prev0 m nextlu nextu nextl nzlumax nzumax nzlmax = Aborted <->
+  (class_of mt = SC_U /\ bump nextu nzumax num = None) \/ (class_of mt = SC_L /\ bump nextl nzlmax num = None).
+Proof. exact src_alloc_abort_iff. Qed.
+Print Assumptions c05_source_alloc_abort_iff.
+
+(* DynamicSetMap (dynamic L-supernode storage), re-translated the same way: the model's bump on nextlu / nzlumax under LULOCK,
+   the old next-pointer stored in map_in_sup[jcol] *)
+Theorem c05_source_dynamic_setmap_is_model : forall pnum jcol num m nextlu nextu nextl nzlumax nzumax nzlmax,
+  gen_DynamicSetMap pnum jcol num m nextlu nextu nextl nzlumax nzumax nzlmax
+  = match bump nextlu nzlumax num with
+    | None => Aborted
+    | Some (p, nx) => Returned (0, zupd m jcol p, (nx, nextu, nextl, nzlumax, nzumax, nzlmax))
+    end.
+Proof. exact source_dynamic_setmap_is_model. Qed.
+Print Assumptions c05_source_dynamic_setmap_is_model.
